@@ -205,7 +205,12 @@ func checkC13(c *Ctx) {
 			// the error must be compared with nil in an If
 			var ifs []*ssa.If
 			var errEdge []int
-			if refs := call.Referrers(); refs != nil {
+			var testsOf func(v ssa.Value, depth int)
+			testsOf = func(v ssa.Value, depth int) {
+				refs := v.Referrers()
+				if refs == nil || depth > 2 {
+					return
+				}
 				for _, r := range *refs {
 					if bo, ok := r.(*ssa.BinOp); ok && (bo.Op == token.EQL || bo.Op == token.NEQ) {
 						if rr := bo.Referrers(); rr != nil {
@@ -221,8 +226,36 @@ func checkC13(c *Ctx) {
 							}
 						}
 					}
+					// a decode helper that hands the error on as its own result
+					// (func decode(b []byte) (payload, error)): the callers test it
+					if ret, ok := r.(*ssa.Return); ok {
+						g := ret.Parent()
+						for j, res := range ret.Results {
+							if res != v {
+								continue
+							}
+							for _, site := range m.callers[g] {
+								cv, ok := site.Instr.(*ssa.Call)
+								if !ok {
+									continue
+								}
+								if len(ret.Results) == 1 {
+									testsOf(cv, depth+1)
+									continue
+								}
+								if crefs := cv.Referrers(); crefs != nil {
+									for _, cr := range *crefs {
+										if ex, ok := cr.(*ssa.Extract); ok && ex.Index == j {
+											testsOf(ex, depth+1)
+										}
+									}
+								}
+							}
+						}
+					}
 				}
 			}
+			testsOf(call, 0)
 			if len(ifs) == 0 {
 				c.viol("R2", key, in, "the error of json.Unmarshal on record-derived bytes is not tested: a malformed record is processed as if it had decoded")
 				return
